@@ -129,17 +129,27 @@ theorem uniform_finish_eq (mask' acs t : Grid) :
   simp only [finish, uniform_input, uniform_keep_input, uniform_keep_target, gAnd_gNot, if_true,
     Bool.false_eq_true, if_false, and_self]
 
-theorem half_finish_eq (d : Dir) (a0 a1 : Int) (nrow ncol : Nat) (mask acs : Grid) :
-    halfSplit d true a0 a1 nrow ncol mask acs =
-      (half_keep_input (halfParts d nrow ncol mask).1 (halfParts d nrow ncol mask).2 acs,
-       half_keep_target (halfParts d nrow ncol mask).1 (halfParts d nrow ncol mask).2 acs) ∧
-    halfSplit d false a0 a1 nrow ncol mask acs =
-      (half_protect_input (halfParts d nrow ncol mask).1 (halfParts d nrow ncol mask).2 mask
+theorem half_finish_eq (d : Dir) (xs ys : List Int) (a0 a1 : Int) (nrow ncol : Nat) (mask acs : Grid) :
+    halfSplit d xs ys true a0 a1 nrow ncol mask acs =
+      (half_keep_input (halfParts d xs ys nrow ncol mask).1 (halfParts d xs ys nrow ncol mask).2 acs,
+       half_keep_target (halfParts d xs ys nrow ncol mask).1 (halfParts d xs ys nrow ncol mask).2 acs) ∧
+    halfSplit d xs ys false a0 a1 nrow ncol mask acs =
+      (half_protect_input (halfParts d xs ys nrow ncol mask).1 (halfParts d xs ys nrow ncol mask).2 mask
          (protectedGrid nrow ncol a0 a1 mask.length),
-       half_protect_target (halfParts d nrow ncol mask).1 (halfParts d nrow ncol mask).2 mask
+       half_protect_target (halfParts d xs ys nrow ncol mask).1 (halfParts d xs ys nrow ncol mask).2 mask
          (protectedGrid nrow ncol a0 a1 mask.length)) := by
   simp only [halfSplit, half_keep_input, half_keep_target, half_protect_input, half_protect_target, gAnd_gNot, if_true,
     Bool.false_eq_true, if_false, and_self]
+
+/-! ## key plumbing of the SSL branch and of the SSL engines -/
+
+theorem ssl_plumbing_ok (keep : Bool) : plumbingOk (ssl_tail keep) ssl_engine_reads = true := by
+  cases keep <;> decide
+theorem jssl_plumbing_ok (keep : Bool) : plumbingOk (ssl_tail keep) jssl_engine_reads = true := by
+  cases keep <;> decide
+/-- outside training the engines read the un-split keys -/
+theorem ssl_eval_reads : ssl_engine_reads.evalK = "masked_kspace" ∧ ssl_engine_reads.evalMask = "sampling_mask" ∧
+    jssl_engine_reads.evalK = "masked_kspace" ∧ jssl_engine_reads.evalMask = "sampling_mask" := by decide
 
 /-! ## statement order of `_gaussian_split`, seeding -/
 
